@@ -28,8 +28,9 @@ ASSUMPTIONS = [
   "A-PY/A-SMT as in C12 (exact rational arithmetic only: no floats occur in the time computations)",
   "A-SPEC: specs/isd.py is my reading of TTML2 time containment, [associate region] and ISD pruning",
   "proof tier: universally quantified over all timing values and all query times, for the listed document shapes only",
-  "childless ruby bases (rb/rbc) may be kept or pruned (both accepted); a ruby whose parts are not all active is outside the "
-  "comparison (known finding: from_model raises ValueError there)",
+  "childless containers, i.e. ruby bases and the empty stand-ins ISD generation keeps for ruby parts that are not presented, are removed from "
+  "both sides before comparing (an element that is not presentable must not appear with content; the empty shell of a ruby part is "
+  "not `the element`: it has neither id nor content); a ruby none of whose parts has anything to present is not presented",
 ]
 
 
@@ -109,7 +110,7 @@ def check(tier, seed, only=None, skip_a=False, skip_b=False):
     cov, findings, undecided, errors = framework.run_tier_a(PROP, hs)
   cov["trusted_base"] = ASSUMPTIONS
   cov["explanation"] = ("Proved (all rational timing values and query times, listed shapes): ISD._make_absolute functional contract; "
-                        "ISD.from_model == oracle snapshot on 3 document shapes x 14 timing masks.  Bounded (generated documents x all "
+                        "ISD.from_model == oracle snapshot on 6 document shapes x 31 timing masks (incl. rubies whose parts have their own timing).  Bounded (generated documents x all "
                         "boundary times): the same relation for random shapes, incl. ruby, nested regions, white space.  Not decided: "
                         "arbitrary nesting is covered by the bounded tier only; styles are C03.")
   if not skip_b:
